@@ -770,7 +770,7 @@ func c11names(quick bool) (idents []string, withNul []string) {
 func runC11(c *fw.Check) {
 	idents, withNul := c11names(c.Quick())
 	poss := c11positions()
-	c.Rule = fmt.Sprintf("ALL byte strings of length 1-2 over 0x01..0xFF (65280), ALL strings of length 3..%d over a 16-class alphabet {0 9 a - . $ _ space \" \\ 5 C 0x01 0x7F 0x80 0xFF}, escape-like sequences, 20+-digit names and keywords, in EACH of 21 positions (labels also as blockaddress targets and instruction results with all names of a chunk in ONE function) (global, local, label, type, comdat and metadata names; referenced globals, callees, instruction results, invoke results and parameters together with a use that must resolve to them; attribute, section, partition, gc, inline-asm and metadata strings; character arrays, the last two also with NUL bytes): built through the API, printed, re-parsed by the library (bytes must come back identically; an ID must not come back as a name or vice versa) and read by llvm-as|llvm-dis whose tokens are decoded by an independent un-escaper; printed tokens of distinct names must be distinct. distinct = (position, byte string).", map[bool]int{true: 4, false: 5}[c.Quick()])
+	c.Rule = fmt.Sprintf("ALL byte strings of length 1-2 over 0x01..0xFF (65280), ALL strings of length 3..%d over a 16-class alphabet {0 9 a - . $ _ space \" \\ 5 C 0x01 0x7F 0x80 0xFF}, escape-like sequences, 20+-digit names and keywords, in EACH of 21 positions (labels also as blockaddress targets and instruction results with all names of a chunk in ONE function) (global, local, label, type, comdat and metadata names; referenced globals, callees, instruction results, invoke results and parameters together with a use that must resolve to them; attribute, section, partition, gc, inline-asm and metadata strings; character arrays, the last two also with NUL bytes): built through the API, printed, re-parsed by the library (bytes must come back identically; an ID must not come back as a name or vice versa) and read by llvm-as|llvm-dis whose tokens are decoded by an independent un-escaper; printed tokens of distinct names must be distinct. PLUS all modules of <=3 globals/functions, unnamed or numerically named, in comdats with numeric names (a comdat named like the ID or the name of its user or of a neighbour): re-parsed and read by LLVM as built. distinct = (position, byte string).", map[bool]int{true: 4, false: 5}[c.Quick()])
 	c.Extra["byte_strings"] = len(idents)
 	c.Extra["positions"] = len(poss)
 	const chunk = 4000
@@ -803,6 +803,7 @@ func runC11(c *fw.Check) {
 	c.Extra["names_llvm_could_not_read_individually_skipped"] = llvmSkipped
 	c.Sample(map[string]interface{}{"position": "global", "bytes": []string{"1abc", "a b", "\\22", "\x01\xff"}, "printed": "@\"1abc\" = global i32 0 ..."})
 	c.Sample(map[string]interface{}{"position": "char-array", "bytes_hex": "00 22 5c ff", "oracle": "llir re-parse and llvm-dis decoding give the same bytes"})
+	c11unnamed(c)
 }
 
 func c11run(c *fw.Check, p c11pos, names []string, mu *sync.Mutex, llvmSkipped *int) {
